@@ -5,7 +5,7 @@ From Coq Require Import NArith List Bool Arith.
 Import ListNotations.
 Require Import EmbossV.Lex.Regex EmbossV.Lex.Tokenizer EmbossV.Lex.Spec EmbossV.Lex.Class EmbossV.Lex.Instance.
 Require Import EmbossV.Lex.Proofs_Line EmbossV.Lex.Proofs_Lines EmbossV.Lex.Proofs_Main EmbossV.Lex.Proofs_Split.
-Require Import EmbossV.Lex.Proofs_Class EmbossV.Lex.Proofs_Examples.
+Require Import EmbossV.Lex.Proofs_Class EmbossV.Lex.Proofs_Number EmbossV.Lex.Proofs_Examples.
 
 (* the matcher returns exactly the longest matching prefix (DESIGN Appendix B) *)
 Theorem longest_spec : forall r s n,
@@ -134,6 +134,17 @@ Proof. exact shouty_prose_sound_proof. Qed.
 
 Theorem shouty_prose_refuted : exists w, is_shouty_prose w /\ forall rest, ~ matches re_shouty w rest.
 Proof. exact shouty_prose_refuted_proof. Qed.
+
+(* numbers: the eight Number regexes denote [is_number]; every documented format is accepted; the
+   converse fails: "0x_1" (underscore directly after 0x) is a Number the reference does not describe *)
+Theorem number_class : forall w rest, (exists r, In r re_numbers /\ matches r w rest) <-> is_number w.
+Proof. exact number_class_proof. Qed.
+
+Theorem number_doc_sound : forall w, is_number_doc w -> is_number w.
+Proof. exact number_doc_sound_proof. Qed.
+
+Theorem number_leading_underscore_refuted : exists w, is_number w /\ ~ is_number_doc w.
+Proof. exact number_leading_underscore_refuted_proof. Qed.
 
 (* the guards are satisfiable and the model runs *)
 Example guards_satisfiable : reserved_free toy_table = true /\ skips_only_ws toy_table = true.
